@@ -11,7 +11,8 @@ EXPLANATION = (
     "`with create_single_instance_lock` region and nothing else in the package writes that table; mode 'session' uses a table "
     "that is an attribute of the connection, which SocketConnection.close resets; mode 'percall' stores nothing; the creator "
     "(or the class) is called exactly once per created instance and a creator result of the wrong type raises; the mode "
-    "literals tested equal the ones the behavior decorator accepts. Not decided: identity across real histories/schedules "
+    "literals tested equal the ones the behavior decorator accepts; register() defaults the mode only if none is set or inherited. "
+    "Not decided: identity across real histories/schedules "
     "(follows only under the interpreter's lock semantics)."
 )
 
